@@ -184,7 +184,7 @@ fn small_val(rng: &mut Rng, ty: Ty) -> CVal {
 const SIMPLE_TYS: [Ty; 7] = [Ty::A, Ty::B, Ty::E, Ty::V, Ty::Transform, Ty::Name, Ty::Visibility];
 
 /// fault enumeration (C08): message kind x receiver condition x direction, then a fresh operation
-const FAULT_CASES: usize = 23;
+const FAULT_CASES: usize = 24;
 
 fn fault_history(seed: u64, idx: usize, out: &mut impl Write) {
     let mut rng = Rng::new(seed.wrapping_mul(7_000_003) ^ (idx as u64) ^ 0xFA17);
@@ -221,7 +221,7 @@ fn fault_history(seed: u64, idx: usize, out: &mut impl Write) {
         "delete+delete_crossing", "delete+despawn_cmd", "spawn+delete_same_frame", "comp_burst+despawn_cmd",
         "parented_chain+despawn_cmd", "comp+sender_despawns_after_write", "reparent+old_parent_despawn_cmd", "delete_parent_with_child",
         "comp_large_value", "skinned+joint_despawn_between", "skinned+joint_despawn_cmd", "skinned+joint_deleted_by_sender",
-        "asset_edge_mesh", "asset_edge_image", "asset_edge_audio"];
+        "asset_edge_mesh", "asset_edge_image", "asset_edge_audio", "reqsync+dangling_parent"];
     writeln!(out, "{}", json!({"ev":"history","family":"fault","id":format!("fault-{}-{}", seed, idx),"clients":nclients,"v6":false,
         "case":names[case],"to_host":to_host})).unwrap();
     let types: serde_json::Map<String, serde_json::Value> =
@@ -276,6 +276,21 @@ fn fault_history(seed: u64, idx: usize, out: &mut impl Write) {
                 18 => { c.s.step(snd); c.s.despawn_in_frame(rcv, y); }
                 _ => { c.s.despawn(snd, y); c.s.step(snd); c.s.step(snd); }
             }
+        }
+        23 => {
+            // a parent despawned on its own (plain `despawn`): its child keeps a `Parent` naming a dead entity on every peer —
+            // and then somebody joins: the snapshot is built from exactly that world
+            c.s.set_parent(snd, x, y);
+            let d = c.drain(40);
+            c.s.trace.push(json!({"ev":"drain","quiescent":d.0,"rounds":d.1}));
+            c.s.despawn(snd, y);
+            let d = c.drain(40);
+            c.s.trace.push(json!({"ev":"drain","quiescent":d.0,"rounds":d.1}));
+            let id = c.s.add_client(PeerCfg::default(), c.rng.below(3));
+            c.nclients += 1;
+            c.s.connect(id);
+            let ok = c.wait_connected(id, 60);
+            c.s.trace.push(json!({"ev":"late_join","peer":id,"ok":ok}));
         }
         20 | 21 | 22 => {
             let kind = match case { 20 => AKind::Mesh, 21 => AKind::Image, _ => AKind::Audio };
@@ -624,6 +639,9 @@ fn history(family: &str, seed: u64, idx: usize, thorough: bool, out: &mut impl W
         if family == "filter" {
             // every subset of registered types, every on/off combination of the three switches, per peer
             cfg.registered = [Ty::A, Ty::B, Ty::E, Ty::V, Ty::U].iter().cloned().filter(|_| cfg_rng.chance(1, 2)).collect();
+            if idx % 4 == 2 {
+                cfg.registered.push(Ty::Skinned);
+            }
             cfg.registered.push(Ty::HMat);
             cfg.registered.push(Ty::HMesh);
             cfg.materials = cfg_rng.chance(1, 2);
@@ -1218,6 +1236,27 @@ fn history(family: &str, seed: u64, idx: usize, thorough: bool, out: &mut impl W
         "filter" => {
             const TYS: [Ty; 5] = [Ty::A, Ty::B, Ty::E, Ty::V, Ty::U];
             const AK: [AKind; 4] = [AKind::Mesh, AKind::Image, AKind::Audio, AKind::Material];
+            // one history in four: a component that names other entities under an exclusion — a skinned entity excluded from
+            // replication whose joints are marked one after the other, some only much later
+            let mut late_joint: Option<(u32, u32)> = None;
+            if idx % 4 == 2 {
+                let p = c.any_peer();
+                let j1 = c.fresh();
+                c.s.spawn(p, j1, true, &[], None);
+                let j2 = c.fresh();
+                c.s.spawn(p, j2, false, &[], None);
+                let sk = c.fresh();
+                c.s.spawn(p, sk, true, &[], None);
+                c.s.exclude(p, sk, Ty::Skinned, true);
+                c.live.push(j1);
+                c.live.push(sk);
+                let d = c.drain(40);
+                c.s.trace.push(json!({"ev":"drain","quiescent":d.0,"rounds":d.1}));
+                c.s.write(p, sk, &CVal::new(Ty::Skinned, 300), &[j1, j2]);
+                let d = c.drain(40);
+                c.s.trace.push(json!({"ev":"drain","quiescent":d.0,"rounds":d.1}));
+                late_joint = Some((p, j2));
+            }
             for _ in 0..rounds {
                 for _ in 0..c.rng.range(1, 3) {
                     let p = c.any_peer();
@@ -1317,6 +1356,13 @@ fn history(family: &str, seed: u64, idx: usize, thorough: bool, out: &mut impl W
                     c.s.trace.push(json!({"ev":"late_join","peer":1,"ok":ok,"rejoin":true}));
                     let d = c.drain(60);
                     c.s.trace.push(json!({"ev":"drain","quiescent":d.0,"rounds":d.1}));
+                }
+            }
+            // the skeleton's last joint becomes a synchronized entity only now (the skin itself stays excluded)
+            if let Some((p, j2)) = late_joint {
+                if c.s.mark_existing(p, j2) {
+                    let d = c.drain(60);
+                    c.s.trace.push(json!({"ev":"drain","quiescent":d.0,"rounds":d.1,"late_joint":true}));
                 }
             }
             // a client that joins now receives the snapshot
